@@ -4,6 +4,8 @@ package main
 import (
 	"errors"
 	"fmt"
+	"github.com/goatcms/goatcore/app"
+	"github.com/goatcms/goatcore/app/scope/eventscope"
 	"hash/fnv"
 	"math/rand"
 	"os"
@@ -338,12 +340,19 @@ func runLoop(r *sup.CaseResult, rng *rand.Rand, cfg runCfg) {
 			src.failPath = failPath
 		}
 	}
-	if cfg.Fault != "" && cfg.Fault != "file-cb-first" && failPath == "" {
+	scopeFault := strings.HasPrefix(cfg.Fault, "scope-")
+	if cfg.Fault != "" && cfg.Fault != "file-cb-first" && !scopeFault && failPath == "" {
 		cfg.Fault = ""
+	}
+	var evScope app.EventScope
+	var cbCount, scopeFired int64
+	fireAt := int64(1 + rng.Intn(4))
+	if scopeFault {
+		evScope = eventscope.New()
 	}
 	var firstMu sync.Mutex
 	firstTaken := false
-	if cfg.Fault != "" {
+	if cfg.Fault != "" && !scopeFault {
 		failErr = fmt.Errorf("injected-%s-%08x", cfg.Fault, rng.Uint32())
 		if cfg.Fault == "readdir" {
 			src.failErr = failErr
@@ -372,6 +381,14 @@ func runLoop(r *sup.CaseResult, rng *rand.Rand, cfg runCfg) {
 			if cfg.Fault == "file-cb" && p == failPath {
 				return failErr
 			}
+			if scopeFault && atomic.AddInt64(&cbCount, 1) == fireAt {
+				if cfg.Fault == "scope-kill" {
+					evScope.Trigger(app.KillEvent, nil)
+				} else {
+					evScope.Trigger(app.ErrorEvent, fmt.Errorf("somebody else on the scope failed"))
+				}
+				atomic.StoreInt64(&scopeFired, 1)
+			}
 			if cfg.Fault == "file-cb-first" {
 				firstMu.Lock()
 				mine := !firstTaken
@@ -398,7 +415,12 @@ func runLoop(r *sup.CaseResult, rng *rand.Rand, cfg runCfg) {
 			return nil
 		}
 	}
-	loop := fsloop.NewLoop(data, nil)
+	var loop *fsloop.Loop
+	if evScope != nil {
+		loop = fsloop.NewLoop(data, evScope)
+	} else {
+		loop = fsloop.NewLoop(data, nil)
+	}
 	done := make(chan struct{})
 	var errs []error
 	// in faulty runs other goroutines ask for the error list all the while (they share the
@@ -481,7 +503,11 @@ func runLoop(r *sup.CaseResult, rng *rand.Rand, cfg runCfg) {
 	for i := 0; i < 3; i++ {
 		runtime.Gosched()
 	}
-	judge(r, rec, cfg, wantF, wantD, errs, failErr, failPath)
+	if scopeFault {
+		judgeScopeFault(r, rec, cfg, wantF, wantD, errs, atomic.LoadInt64(&scopeFired) == 1)
+	} else {
+		judge(r, rec, cfg, wantF, wantD, errs, failErr, failPath)
+	}
 	sigMu.Lock()
 	r.Key = fmt.Sprintf("%+v|%s|%d|%d", cfg, string(sig), len(wantF), len(wantD))
 	sigMu.Unlock()
@@ -525,6 +551,64 @@ func loopIsStuck(rec *recorder) string {
 		return ""
 	}
 	return fmt.Sprintf("no callback is running and all %d goroutines inside the loop are parked on channels or locks in two dumps", n2)
+}
+
+// judgeScopeFault: a kill / error event on the loop's scope may end the walk early, but never
+// silently – "with no error nothing is skipped": an empty error list means every selected node
+// got its callback; in any case nothing runs twice, nothing unexpected, nothing after Wait.
+func judgeScopeFault(r *sup.CaseResult, rec *recorder, cfg runCfg, wantF, wantD map[string]bool, errs []error, fired bool) {
+	rec.mu.Lock()
+	evs := append([]event{}, rec.events...)
+	rec.mu.Unlock()
+	wit := map[string]any{"cfg": cfg, "expected_files": len(wantF), "expected_dirs": len(wantD), "event_fired": fired}
+	gotF, gotD := map[string]int{}, map[string]int{}
+	var waitedSeq int64 = -1
+	for _, e := range evs {
+		switch e.kind {
+		case "enter-file":
+			gotF[e.path]++
+		case "enter-dir":
+			gotD[e.path]++
+		case "waited":
+			waitedSeq = e.seq
+		}
+	}
+	for _, e := range evs {
+		if waitedSeq >= 0 && e.seq > waitedSeq {
+			r.Violate("callback-after-wait", fmt.Sprintf("%s %q logged after Wait() returned", e.kind, e.path), wit)
+			break
+		}
+	}
+	for p, n := range gotF {
+		if n > 1 {
+			r.Violate("file-repeated", fmt.Sprintf("file callback ran %d times for %q", n, p), wit)
+		}
+		if !wantF[p] {
+			r.Violate("file-unexpected", fmt.Sprintf("file callback for %q, which is filtered out / under a rejected directory / not in the tree", p), wit)
+		}
+	}
+	for p, n := range gotD {
+		if n > 1 {
+			r.Violate("dir-repeated", fmt.Sprintf("directory callback ran %d times for %q", n, p), wit)
+		}
+		if !wantD[p] {
+			r.Violate("dir-unexpected", fmt.Sprintf("directory callback for %q, which is filtered out or not in the tree", p), wit)
+		}
+	}
+	skipped := len(wantF) + len(wantD) - len(gotF) - len(gotD)
+	if len(errs) == 0 && skipped > 0 {
+		r.Violate("node-skipped", fmt.Sprintf("Errors() is empty, but %d of %d selected nodes never got their callback (a %s fired on the loop's scope during the walk: %v)", skipped, len(wantF)+len(wantD), cfg.Fault, fired), wit)
+	}
+	if fired {
+		r.AddObs("loops_ended_by_an_event_on_their_scope", 1)
+		if skipped > 0 {
+			r.AddObs("loops_ended_by_an_event_that_skipped_nodes_and_said_so", 1)
+		}
+	}
+	r.AddObs("events", int64(len(evs)))
+	r.AddObs("callbacks", int64(len(gotF)+len(gotD)))
+	r.AddObs("runs", 1)
+	r.Nontrivial = len(wantF)+len(wantD) > 0
 }
 
 func judge(r *sup.CaseResult, rec *recorder, cfg runCfg, wantF, wantD map[string]bool, errs []error, failErr error, failPath string) {
@@ -822,6 +906,12 @@ func genCfg(rng *rand.Rand, idx int) runCfg {
 	}
 	if idx%397 == 31 {
 		cfg.Shape = "wide2300"
+	}
+	if idx%23 == 7 && !strings.HasPrefix(cfg.Shape, "wide") {
+		// the loop is bound to an event scope and a kill / error event fires on that scope from
+		// inside the k-th callback: nodes may be skipped then, but never silently
+		cfg.Fault, cfg.OnFile = []string{"scope-kill", "scope-error"}[rng.Intn(2)], true
+		return cfg
 	}
 	if strings.HasPrefix(cfg.Shape, "wide") && idx%2 == 1 {
 		// more files than the queue holds, one or two slow consumers, and the very first file
